@@ -2,6 +2,7 @@
 package main
 
 import (
+	"sort"
 	"fmt"
 	"go/ast"
 	"go/token"
@@ -75,6 +76,39 @@ func (g *Gen) instr(in ssa.Instruction, li *loopInfo) {
 	case *ssa.Alloc:
 		g.alloc(x)
 	case *ssa.Store:
+		// anchor `store <Field>#k`: the k-th assignment (in source order) to a struct field of that name
+		if fa, ok := x.Addr.(*ssa.FieldAddr); ok && fr.c != nil && !fr.inl && len(fr.c.Asserts)+len(fr.c.GhostAts) > 0 {
+			if pt, ok := fa.X.Type().Underlying().(*types.Pointer); ok {
+				if st, ok := pt.Elem().Underlying().(*types.Struct); ok {
+					fname := st.Field(fa.Field).Name()
+					type posStore struct {
+						pos token.Pos
+						in  *ssa.Store
+					}
+					var all []posStore
+					for _, b := range fr.fn.Blocks {
+						for _, in := range b.Instrs {
+							if s2, ok := in.(*ssa.Store); ok {
+								if fa2, ok := s2.Addr.(*ssa.FieldAddr); ok {
+									if pt2, ok := fa2.X.Type().Underlying().(*types.Pointer); ok {
+										if st2, ok := pt2.Elem().Underlying().(*types.Struct); ok && st2.Field(fa2.Field).Name() == fname {
+											all = append(all, posStore{s2.Pos(), s2})
+										}
+									}
+								}
+							}
+						}
+					}
+					sort.SliceStable(all, func(i, j int) bool { return all[i].pos < all[j].pos })
+					for k, ps := range all {
+						if ps.in == x {
+							env := &TEnv{g: g, vars: map[string]tvT{"value": {t: g.term(x.Val), gt: x.Val.Type()}}}
+							g.atAnchor(fmt.Sprintf("store %s#%d", fname, k+1), env)
+						}
+					}
+				}
+			}
+		}
 		l := g.lvalOf(x.Addr)
 		if l == nil {
 			g.note("store through unknown pointer: %s", x)
